@@ -431,7 +431,9 @@ class ABCTune(object):
     note2 = self._ns.notes[-1]
     note1_len = note1.end_time - note1.start_time
     note2_len = note2.end_time - note2.start_time
-    if note1_len != note2_len:
+    # The lengths are differences of float times, so two notes of the same
+    # notated length can differ by rounding error.
+    if abs(note1_len - note2_len) > 1e-9:
       raise ABCParseError(
           'Cannot apply broken rhythm to two notes of different lengths')
 
